@@ -578,8 +578,9 @@ def check_C19(rep):
     else:
         mcs = [_mc_job("line4", SCALED, SLACK_SCALED, (0, 1, 2, 3), ()),
                _mc_job("restrictions", SCALED, SLACK_SCALED, (0, 1, 2), ("fso", "lso")),
-               _mc_job("vbus+disc", SCALED, SLACK_SCALED, (0, 1, 2), ("vbus", "disc")),
-               _mc_job("busy+fso", SCALED, SLACK_SCALED, (0, 1, 2), ("busy", "fso")),
+               _mc_job("vbus", SCALED, SLACK_SCALED, (0, 1, 2), ("vbus",)),
+               _mc_job("disconnect", SCALED, SLACK_SCALED, (0, 1, 2), ("disc",)),
+               _mc_job("busy", SCALED, SLACK_SCALED, (0, 1, 2), ("busy",)),
                _mc_job("edges all inputs", SCALED, SLACK_SCALED, (0, 1, 2, 3), tuple(TOGGLES), edges=True),
                _mc_job("leaps (small scale)", SCALED_SMALL, SLACK_SCALED, (0, 1, 2, 3), ("fso", "vbus"), leap=15),
                _mc_job("leaps", SCALED, SLACK_SCALED, (0, 1, 2), (), leap=31)]
